@@ -193,12 +193,7 @@ def apply_op(env, op, obj, birth):
             raw = obj.convert_to_dot_bracket(env.decoy_solver())
         elif op == "convert_other_tie":
             # an explicit conversion with a correct solver that breaks ties its own way (another of the optima)
-            saved = (env.faults, env.fault_cursor)
-            env.faults, env.fault_cursor = [dict(env.faults[0], tie=env.faults[0].get("tie", 0) + 1)], 0
-            try:
-                raw = obj.convert_to_dot_bracket(env.decoy_solver())
-            finally:
-                env.faults, env.fault_cursor = saved
+            raw = obj.convert_to_dot_bracket(env.other_solver())
         elif op == "convert_none":
             raw = obj.convert_to_dot_bracket(None)
         elif op == "without_pseudoknots":
